@@ -714,6 +714,9 @@ func validateEphemeralSiafundElement(ms *MidState, sfi types.V2SiafundInput) err
 		// the claimed contents of an ephemeral parent are not checked before
 		// the hardfork, but the claim is computed from them when applying
 		return fmt.Errorf("claims impossible claim start (%v) for ephemeral output %v", sfi.Parent.ClaimStart, sfi.Parent.ID)
+	} else if sfi.Parent.SiafundOutput.Value > ms.base.SiafundCount() {
+		// likewise, the claim is proportional to the claimed value
+		return fmt.Errorf("claims impossible value (%d SF) for ephemeral output %v", sfi.Parent.SiafundOutput.Value, sfi.Parent.ID)
 	}
 	return nil
 }
